@@ -103,7 +103,10 @@ class C18(Property):
             "file, possibly the same fingerprint for different files) / strictness / tolerance, sometimes a configuration that "
             "must not start, and 3-8 requests each aimed at one group with credentials made for any group; big: cryption round "
             "trip for payload sizes 0..1 MiB (seed, length) in both directions, response written in pieces, judged by an "
-            "independent stdlib client; hdr: one header "
+            "independent stdlib client; enumerated (every run): every encoding-level edit of the signature attribute (each of "
+            "its 44 characters x alphabet neighbours in bit 1/2/4, padding, other alphabet, CR/LF/space/tab/NUL/garbage "
+            "inserted, case, percent-encoding, deletion), of the secret and fingerprint attributes and of the three JWT "
+            "segments; hdr: one header "
             "string through httpx.ParseHeader. non-trivial = jwt/tp case with both an accepted and a rejected token that parses, "
             "cs case whose secret decrypts, crypt case whose body is valid base64, srv case with >= 2 protected groups and both "
             "an accepted and a rejected request; distinct = canonical JSON hash of the case")
@@ -157,7 +160,7 @@ class C18(Property):
             r = {"now": 1000, "auth": "bearer", "header": hs, "payload": pay, "signkey": "s1", "signalg": "HS256"}
             r.update(kw)
             return r
-        return [
+        return self._enum_cases() + [
             {"kind": "jwt", "secret": "s1", "prev": "s0", "reqs": [
                 jr(), jr(signkey="s0"), jr(now=2000), jr(now=1999),
                 jr(mut=[{"op": "hdr", "s": jd({"alg": "none"})}, {"op": "sigempty"}]),
@@ -211,6 +214,66 @@ class C18(Property):
                 {"secret": "s1", "prev": "s0", "req": jr()}, {"secret": "s1", "prev": "s0", "req": jr()},
                 {"secret": "s1", "prev": "s0", "req": jr(now=2000)}, {"secret": "s1", "prev": "s0", "req": jr(signkey="s0", now=2000)}]},
         ]
+
+    # ------------------------------------------------------------------ encoding-level edits, ENUMERATED
+    INS = ["\r", "\n", " ", "\t", "\x00", "==", "xyz"]
+
+    def _edits_for(self, n, tail):
+        """every encoding-level edit of a base64 text of n characters: for EVERY position the alphabet neighbours that
+        differ in bit 1 / 2 / 4 (so the characters carrying unused trailing bits are always included), padding dropped /
+        added, the other alphabet, CR / LF / space / tab / NUL / garbage at start / middle / end, case flips,
+        percent-encoding, a deleted character"""
+        es = [{"op": "lowbits", "pos": i, "k": k} for i in range(n) for k in (1, 2, 4)]
+        es += [{"op": "droppad"}, {"op": "addpad"}, {"op": "swapalpha"}]
+        for sx in self.INS:
+            for pos in (0, n // 2, -1):
+                es.append({"op": "ins", "pos": pos, "s": sx})
+        for pos in (0, n // 2, tail, -1):
+            es += [{"op": "case", "pos": pos}, {"op": "pct", "pos": pos}, {"op": "del", "pos": pos}]
+        return es
+
+    def _enum_cases(self):
+        hs = jd({"alg": "HS256", "typ": "JWT"})
+        k16 = "0123456789abcdef"
+        base = {"method": "POST", "path": "/a", "query": "x=1", "body": "hello", "aeskey": k16, "fp": "A", "rsa": "A",
+                "hdr": "normal", "resp": "world"}
+        out = []
+
+        def cs(**kw):
+            r = dict(base)
+            r.update(kw)
+            return {"kind": "cs", "strict": True, "tol": 100, "keys": ["A"], "req": r, "muts": ["enum"]}
+        # the signature attribute: base64 of a 32-byte MAC = 44 characters, character 42 carries 2 unused bits
+        for e in self._edits_for(44, 42):
+            out.append(cs(edits=[dict(e, field="sig")]))
+        # the secret attribute: base64 of a 128-byte RSA block = 172 characters, character 170 carries 4 unused bits
+        sec = [e for e in self._edits_for(172, 170) if e["op"] != "lowbits" or e["pos"] in (0, 1, 85, 168, 169, 170, 171)]
+        for e in sec:
+            out.append(cs(edits=[dict(e, field="secret")]))
+        # the fingerprint
+        for e in ({"op": "case", "pos": 0}, {"op": "lowbits", "pos": 0, "k": 1}, {"op": "lowbits", "pos": 0, "k": 2},
+                  {"op": "pct", "pos": 0}, {"op": "ins", "pos": -1, "s": "\x00"}, {"op": "ins", "pos": -1, "s": "="},
+                  {"op": "ins", "pos": 0, "s": " "}, {"op": "ins", "pos": -1, "s": " "}, {"op": "ins", "pos": -1, "s": "A"}):
+            out.append(cs(edits=[dict(e, field="fp")]))
+        # the timestamp: signed as canonical digits, carried in another spelling of the same number; attribute order
+        for f in ("plus", "zeros", "space"):
+            out.append(cs(tsfmt=f, signtsplain=True))
+        out.append(cs(hdrfmt="reorder"))
+        out.append(cs(hdrfmt="dupsig_bad_last"))
+        out.append(cs(hdrfmt="dupsig_good_last"))
+
+        # the JWT: every character of the signature segment (43 characters, the last carries 2 unused bits), and the
+        # header / payload segments at their ends and middle
+        def jr(mut):
+            return {"now": 1000, "auth": "bearer", "header": hs, "payload": jd({"exp": 2000, "uid": 7}), "signkey": "s1",
+                    "signalg": "HS256", "mut": [mut], "cls": "enum"}
+        reqs = [jr({"op": "edit", "i": 2, "e": e}) for e in self._edits_for(43, 42)]
+        for seg, n in ((0, 36), (1, 27)):
+            es = [e for e in self._edits_for(n, n - 1) if e["op"] != "lowbits" or e["pos"] in (0, n // 2, n - 2, n - 1)]
+            reqs += [jr({"op": "edit", "i": seg, "e": e}) for e in es]
+        for i in range(0, len(reqs), 16):
+            out.append({"kind": "jwt", "secret": "s1", "prev": "s0", "cb": 1, "reqs": reqs[i:i + 16]})
+        return out
 
     # ------------------------------------------------------------------ generators
     def _rand_claims(self, rng, now):
@@ -530,7 +593,7 @@ class C18(Property):
                "hdrfmt_dupsig_good_last", "hdrfmt_dupsig_bad_last", "hdrfmt_upper",
                "clen_more", "clen_less", "flush", "gzenc", "secpad", "secpad_gz", "sbody_tail", "sbody_head", "sbody_prefix", "sbody_prefix", "sbody_prefix", "sbody_suffix",
                "limit_none", "tol_negative", "tol_fraction", "ts_boundary", "ts_boundary", "ts_boundary", "ts_boundary",
-               "clen_huge"]
+               "clen_huge", "text_edit", "text_edit", "text_edit", "ts_respelled", "hdrfmt_reorder"]
     CRYPT_MUTS = ["none", "none", "none", "cipher_trunc", "cipher_lastbyte", "cipher_wrongkey", "cipher_dropblock",
                   "bodyraw_nl", "bodyraw_notb64", "bodyraw_short", "chunked", "aeskey_bad", "limit_small", "plain_body",
                   "clen_more", "clen_less", "nobody_badkey", "flush", "chunked_empty", "limit_none", "clen_huge"]
@@ -569,6 +632,12 @@ class C18(Property):
             r["clenadd"] = rng.choice([2 ** 31, 2 ** 32 + 1, 2 ** 40, 2 ** 53, 2 ** 62, 2 ** 63 - 200000])
             if len(r.get("body", "")) == 0:
                 r["body"] = "x"
+        elif mut == "text_edit":
+            field, n, tail = rng.choice([("sig", 44, 42), ("sig", 44, 42), ("secret", 172, 170), ("fp", 1, 0)])
+            e = dict(rng.choice(self._edits_for(n, tail)), field=field)
+            r.setdefault("edits", []).append(e)
+        elif mut == "ts_respelled":
+            r["tsfmt"], r["signtsplain"] = rng.choice(["plus", "zeros", "space"]), True
         elif mut == "tsraw":
             r["tsraw"] = rng.choice(["abc", "", "12.5", " 123", "1e9", "99999999999999999999", "9223372036854775807",
                                      "-9223372036854775808", "9223372036854775803", "0", "-1", "+5", "0x10", "1_000"])
@@ -954,7 +1023,7 @@ class C18(Property):
         pid, qid = ids("p:" + v["path"]), ids("q:" + v["query"])
         tsid, dig = ids("t:" + v["tsstr"]), ids("d:" + v["digest"])
         kid = keyid(v["key"])
-        fpid = {"A": 1, "B": 2}.get(q["fp"], 9)
+        fpid = {"A": 1, "B": 2}.get(v.get("fpsent", q["fp"]), 9)
         hdr = "(mkHdr %s %s %s)" % (copt(fpid if v["hasfp"] else None), copt(1 if v["hassecret"] else None),
                                     copt(tagid(v["sig"]) if v["hassig"] else None))
         xuri = "None"
@@ -1046,7 +1115,7 @@ class C18(Property):
             q, v = sq["cs"], o["view"]
             mid, pid, qid = self._mid(ids, q["method"]), ids("p:" + v["path"]), ids("q:" + v["query"])
             tsid, dig, k = ids("t:" + v["tsstr"]), ids("d:" + v["digest"]), kid(v["key"])
-            hdr = "(mkHdr %s %s %s)" % (copt(fpid(q["fp"]) if v["hasfp"] else None),
+            hdr = "(mkHdr %s %s %s)" % (copt(fpid(v.get("fpsent", q["fp"])) if v["hasfp"] else None),
                                         copt(scid(v["secretct"]) if v["hassecret"] else None),
                                         copt(tg("c:" + v["sig"]) if v["hassig"] else None))
             add(cmac, "((%d, (%d, %s, %d, %d, %d)), %d)" % (k, tsid, cz(mid), pid, qid, dig, tg("c:" + v["tagurl"])))
@@ -1091,7 +1160,7 @@ class C18(Property):
                                             cbool(so["bindok"]), clist(reqs))
 
     SRV_SECRETS = ["secret-one-0001", "secret-two-0002", "secret-three-03"]
-    SRV_MUTS = ["none", "none", "none", "sbody_tail", "sbody_prefix", "ts_boundary", "ts_boundary", "toff_edge", "toff_out", "tsraw", "smethod", "spath", "squery", "sbody", "stoff", "skey",
+    SRV_MUTS = ["none", "none", "none", "text_edit", "text_edit", "sbody_tail", "sbody_prefix", "ts_boundary", "ts_boundary", "toff_edge", "toff_out", "tsraw", "smethod", "spath", "squery", "sbody", "stoff", "skey",
                 "rsa_garbage", "hdr_missing", "hdr_nosig", "hdr_nofp", "sig_flip", "sig_other", "ctype_other", "body_after",
                 "hdrfmt_dupsig_bad_last", "cipher_lastbyte", "fp_unknown"]
     JWT_OK_CLS = ("valid", "auth_lower", "auth_upper", "auth_noprefix", "exp_next", "nbf_now", "iat_now", "siglast",
@@ -1418,7 +1487,7 @@ class C18(Property):
                     res.append(c)
             return res
         for k in ("xuri", "smethod", "spath", "squery", "sbody", "stoff", "skey", "bodyraw", "cipherop", "sigmut",
-                  "tsraw", "keyb64", "ctype", "chunked"):
+                  "tsraw", "keyb64", "ctype", "chunked", "edits", "signtsplain", "tsfmt", "hdrfmt", "secpad", "gzenc", "clenadd"):
             if case["req"].get(k) not in (None, False, ""):
                 c = json.loads(json.dumps(case))
                 del c["req"][k]
